@@ -151,4 +151,5 @@ Definition g_multi_call (subs : list amp) (s : si) : res si :=
   let* out_si := g_multi_parts subs s in
   if is_nil out_si then Err "ValueError:multiband" else g_mux out_si.
 
+(* gnpy/topology/request.py: propagate (template, literal: build, filter_si once, element loop, update_snr(si.tx_osnr) on the source transceiver and roadm_osnr + [si.tx_osnr] on the receiver) *)
 (* gnpy/core/network.py: set_egress_amplifier: node.params.bands = [a.params.bands[0] for a in node.amplifiers.values()] (statements present, checked) *)
